@@ -1,6 +1,7 @@
 /-
   C09 — Cordoned nodes are never touched and never counted.
 -/
+import EscProofs.P.GenClassify
 import EscProofs.Lemmas.Run
 import EscProofs.Lemmas.Classify
 namespace Esc.P
